@@ -116,6 +116,28 @@ CLAIMED = {
         'Lifecycle.tla is a history generator with read/write sets taken from '
         'reading the code, not a proof about the code.',
         'DESIGN.md 4/C07'),
+    'C08': (
+        'TLC model checking of the compile model in Workbook.tla '
+        '(FrozenIndependent, CompiledEqualsSem; the code\'s SELF-path deviation '
+        'named) + replay: every compiled function called on every argument '
+        'tuple vs Sem(W, inputs := arguments) and vs calculate(); single '
+        'formulas: compile() vs literals written in',
+        'Workbook.tla models ExcelModel.compile as pre-evaluation without the '
+        'inputs, freezing, and later evaluation from frozen values and '
+        'arguments; TLC checks for every generated (workbook, input list, '
+        'argument tuple) that nothing frozen depends on an argument and that '
+        'the compiled function equals the history-free meaning - outright for '
+        'the ideal, and modulo the named SELF-path deviation for the model of '
+        'the code. The real m.compile(inputs, outputs) is built for three '
+        'input lists per workbook (cells, names, ranges, unpopulated cells) '
+        'and called with three argument tuples of mixed kinds each (values '
+        'that flip IF branches, errors, text); results must equal Sem and the '
+        'values calculate(inputs=, outputs=) gives. Random single formulas '
+        'with references: compile()(*args in func.inputs order) must equal '
+        'the formula with the arguments written in as literals.',
+        'Trusted: TLC; generator/concretisation; the single-formula part is a '
+        'metamorphic comparison of two paths of the library (no spec oracle).',
+        'DESIGN.md 4/C08'),
     'C18': (
         'TLC model checking of ShuntingYard.tla/Grammar.tla (every token '
         'sequence ends acc or rej; acc only if the grammar accepts) and '
